@@ -165,6 +165,20 @@ def run_state(seed, tier):
                 try:
                     t = io.StringIO(); export(t); dests["StringIO"] = t.getvalue()
                     t = iosim.SimTextStream(); export(t); dests["SimTextStream"] = t.value()
+                    # a text stream that *says* it is not UTF-8: the library hands it text,
+                    # what bytes that becomes is the stream's business
+                    t = iosim.SimTextStream(); t.encoding_name = "latin-1"; export(t)
+                    dests["SimTextStream-latin1"] = t.value()
+                    try:
+                        s0.encode("cp1252")
+                        cp_ok = True
+                    except UnicodeError:
+                        cp_ok = False
+                    if cp_ok:
+                        with open(os.path.join(sb.root, "c." + fmt), "w", encoding="cp1252", newline="") as f:
+                            export(f)
+                        with iosim.real_open(os.path.join(sb.root, "c." + fmt), "rb") as f:
+                            dests["file-w-cp1252"] = f.read().decode("cp1252")
                     t = io.BytesIO(); export(t); dests["BytesIO"] = t.getvalue()
                     t = iosim.SimBinaryStream(); export(t); dests["SimBinaryStream"] = t.value()
                     with open(os.path.join(sb.root, "t." + fmt), "w", encoding="utf-8") as f:
@@ -187,7 +201,7 @@ def run_state(seed, tier):
                     continue
                 for kind, data in dests.items():
                     cell("%s:dest:%s" % (fmt, kind))
-                    want_text = kind in ("StringIO", "SimTextStream", "file-w")
+                    want_text = kind in ("StringIO", "SimTextStream", "file-w", "SimTextStream-latin1", "file-w-cp1252")
                     if want_text != isinstance(data, str):
                         violate("destinations", "%s-%s-wrong-type" % (fmt, kind), {"type": type(data).__name__})
                         continue
@@ -217,6 +231,9 @@ def run_state(seed, tier):
                     stats["skipped_formats"][fmt + "-read"] = base[1]
                     continue
                 bpath = os.path.join(sb.root, "b." + fmt)
+                misleading = os.path.join(sb.root, "m-%s.%s" % (fmt, {"json": "xml", "xml": "ttl", "rdf": "json"}[fmt]))
+                with iosim.real_open(misleading, "wb") as f:
+                    f.write(dests["path"])
                 chunk = rng.choice([1, 7, 64, 4096])
                 file_bytes = dests["path"]
                 file_text = s0 if fmt != "xml" else file_bytes.decode("utf-8")
@@ -259,6 +276,9 @@ def run_state(seed, tier):
                     "read-auto:SimTextStream": lambda: prov.read(iosim.SimTextStream(file_text, chunk=chunk)),
                     "read-auto:SimBinaryStream": lambda: prov.read(iosim.SimBinaryStream(file_bytes, chunk=chunk)),
                     "read-auto:path": lambda: prov.read(pth),
+                    # the file name says nothing reliable about the content
+                    "read-auto:path-misleading-extension": lambda: prov.read(misleading),
+                    "path-misleading-extension": lambda: ProvDocument.deserialize(source=misleading, format=fmt),
                     "read-auto:file-rb": lambda: _with(iosim.real_open(bpath, "rb"), lambda f: prov.read(f)),
                     "read-auto:file-r-utf8": lambda: _with(iosim.real_open(bpath, "r", encoding="utf-8"),
                                                            lambda f: prov.read(f)),
